@@ -1,7 +1,23 @@
 PROPERTY = "C19"
 ENTRY = {
-    "text": "placeholder",
+    "text": "HashPrefix.tla is the state machine of one hash-prefix checker (service database, prefix cache with relative entry ages, "
+            "Check / Tick / DbChange) written from the statement: Check is nondeterministic over every observable outcome the statement "
+            "admits (set of 2-byte prefixes disclosed, verdict), with the candidates = name and parents within the last four labels cut at "
+            "the ICANN public suffix (the ICANN part underneath a private suffix may or may not be included). TLC explores the complete "
+            "graph over <<db, cache>> (9 names of 1..8 labels over 3 colliding prefixes, up to 6 listable hashes incl. the hash of a public "
+            "suffix and a foreign hash; 48 512 states / 2.1 M transitions) and checks cache transparency against a ghost history, "
+            "the verdict and privacy step properties, with coverage. Direction A: TLC prints the graph's edges; walks covering every "
+            "(state, action) pair are performed on the real hashprefix.Checker (recording mock lookup service that also serves malformed TXT "
+            "strings, synctest clock, real names found by seeded SHA-256 search so that the two-byte prefixes collide as in the spec); "
+            "TraceHashPrefix.tla judges every observed (question, verdict) against all admissible outcomes. Direction B: random histories "
+            "over a large universe of real names (ICANN suffixes of 1..4 labels, private and unlisted suffixes, forced prefix collisions, "
+            "cache sizes down to a few bytes) at package level and through DNSFilter.CheckHost (mixed case), validated by the same trace spec.",
     "design_ref": "DESIGN.md section 4 C19",
-    "note": "placeholder",
-    "technique": "placeholder",
+    "note": "Trusted: TLC; conc()/abs() of the two zz_verif_c19_test.go files (own SHA-256, question parser, label search); "
+            "golang.org/x/net/publicsuffix as the instrument for what an ICANN/private suffix is; the mock service is honest by construction. "
+            "Package-level names are given in the callers' normal form (lower case, no trailing dot); mixed case goes through CheckHost; "
+            "the trailing dot is trimmed in dnsforward and is not exercised here. Question type/class and upstream errors are not compared. "
+            "Known finding (open, fix proposed): with a CacheSize smaller than one answer's entries a positive result is cached as negative.",
+    "technique": "TLA+ state machine checked exhaustively by TLC; edge-covering walks replayed into the real code and judged by TLC trace validation; "
+                 "random real-code traces validated by TLC",
 }
